@@ -6,6 +6,30 @@ ALL = ["C%02d" % i for i in range(1, 21)]
 
 # id -> (technique, level text, level_note, design_ref)
 CLAIMS = {
+ "C12": ("Lean 4 proofs over a clone table regenerated from `struct Shell`/`impl Clone` + isolation theorems on a mutator model; serde-snapshot correspondence",
+         "Proof: a translator parses `pub struct Shell` and `impl Clone for Shell` (and the component types) into Gen/ShellFields.lean on every run; "
+         "by decide over that table: every field is classified, every state field is handed to the clone by value, no state field's type (nor its "
+         "struct's own fields) mentions Arc/Rc/Mutex/RefCell/atomics. Model/Subshell.lean: ShellPart + process-wide World, 8 subshell contexts, "
+         "mutators. subshell_preserves_parent_partial (every context, every mutator list, every parent state; guard: no umask/ulimit), "
+         "nothing_else_flows_back_partial, concurrent_child_invisible_partial (every interleaving), sharing_breaks_isolation (any table sharing a "
+         "component fails), cex for umask/ulimit/stage errors. Tie: serde snapshot of the whole parent Shell before/after in-process runs in each "
+         "context vs the model, and full textual dumps before/after in the binary (and bash).",
+         "Trusted: Lean kernel + standard axioms; the translator (raises when the items change shape); serde's view of the Shell (fields skipped by "
+         "serde — jobs, builtins, key bindings — are compared through the textual dump only). Process-wide state (umask, rlimits, cwd of the process) "
+         "is modelled as World, not verified.",
+         "DESIGN.md §6 C12"),
+ "C16": ("Lean 4 theorems on the exit funnel / trap invocation model (built on the Flow interpreter) + three-way correspondence on termination paths",
+         "Proof: Model/Traps.lean mirrors invoke_trap_handler (re-entrancy guard, `$?` save/restore) and the single on_exit call every front end "
+         "makes; programs and handlers are arbitrary Flow commands, so every way out (exit n at any depth, errexit, running off the end) is a value "
+         "that reaches the same funnel. exit_trap_runs_exactly_once_and_last (output = main's output followed by exactly one handler run started "
+         "with `$?` = terminating status), trap_preserves_status, handler_not_reentered, exec_replaces_shell_without_trap, front_end_irrelevant; the "
+         "clause 'unless the handler itself calls exit' is refuted for brush (exit_status_full_cex) and proved under the guard (exit_status_partial). "
+         "Tie: 7 ways out x 12 nesting contexts x 7 handler bodies x {-c, file, stdin}, trap set/replaced/removed + random programs: brush vs bash vs "
+         "model, and the exactly-once predicate on brush's own trace; ERR-trap programs brush vs bash.",
+         "Trusted: Lean kernel + standard axioms; bash as oracle. Where the ERR trap fires inside a program is not in the model (compared with bash "
+         "directly); traps set inside the program are resolved statically to the handler in force at exit. Two fixes tried for the recorded findings "
+         "are blocked by known_failure pins in the repository's stable test set.",
+         "DESIGN.md §6 C16"),
  "C06": ("Lean 4 proofs on the parameter-operator algorithms (abstract matcher, Int offsets) + in-process correspondence + bash oracle",
          "Proof: Model/ParamOps.lean mirrors expansion.rs/patterns.rs (classify, the - = ? + table, ${#v}, substring bounds and slices, the four "
          "remove_* loops) over an abstract matcher m and unbounded Int offsets; Spec/ParamOps.lean is bash's definition. 23 theorems for every "
